@@ -292,7 +292,7 @@ func rulePAT1(p *Program) *RuleResult {
 				"nothing-after path query over the CFG (errors of mutating callees themselves excepted: those callees satisfy the same rule)", true)
 		}
 	}
-	r.floor("mutating_functions", 6)
+	r.floor("mutating_functions", 5)
 	return r
 }
 
@@ -532,7 +532,7 @@ func rulePAT345(p *Program) *RuleResult {
 			r.bad("getFieldForCollection|identity", fmt.Sprintf("the patch target is located with structural equality (%s) / identity comparisons=%d", deep, ident), p.pos(gf.Pos()), "an equal-valued sibling that comes first is patched instead of the selected element")
 		}
 	}
-	r.floor("value_params", 4)
+	r.floor("value_params", 2)
 	return r
 }
 
@@ -689,7 +689,7 @@ func rulePAT9(p *Program) *RuleResult {
 	if len(r.Obs) == 0 {
 		r.ok("patch|no-merge", fmt.Sprintf("none of the %d patch functions copies or merges an existing message", n), "fhirpath/patch", "call inventory (proto.Merge, proto.Clone, Message.Range)", true)
 	}
-	r.floor("patch_functions", 20)
+	r.floor("patch_functions", 12)
 	return r
 }
 
